@@ -49,19 +49,32 @@ Arguments finish_task : simpl never.
 
 (* the part of a command record that no runtime step may change *)
 Definition meta (c : cmdst) := (c_names c, c_epoch c).
-Definition good (f : cmdst -> cmdst) : Prop := forall cm, meta (f cm) = meta cm.
+(* ... and what only ever moves one way: a dropped Command value stays dropped *)
+Definition good (f : cmdst -> cmdst) : Prop :=
+  forall cm, meta (f cm) = meta cm /\ (c_alive cm = false -> c_alive (f cm) = false).
 
 Ltac solve_good := unfold good, meta, spawn_one, slab_insert, slab_set, slab_remove, slab_clear, set_slab,
   set_ready, set_spawnq, set_eff, set_evs, set_atomic, set_alive;
-  intros cm; destruct cm; simpl; repeat match goal with |- context[if ?b then _ else _] => destruct b end; reflexivity.
+  intros cm; destruct cm; simpl; repeat match goal with |- context[if ?b then _ else _] => destruct b end;
+  (split; [reflexivity | intros; first [assumption | reflexivity]]).
+
+(* the updates of channels and task flags the runtime performs are monotone: a closed end of a channel
+   stays closed; an abort flag, a finished flag stay set; a task flag whose task is gone stays so *)
+Definition goodch (f : chan -> chan) : Prop :=
+  forall x, (ch_rx x = false -> ch_rx (f x) = false) /\ (ch_tx x = false -> ch_tx (f x) = false).
+Definition goodtf (f : tflag -> tflag) : Prop :=
+  forall t, (tf_abort t = true -> tf_abort (f t) = true) /\ (tf_fin t = true -> tf_fin (f t) = true) /\
+            (tf_alive t = false -> tf_alive (f t) = false).
+Ltac solve_goodch := unfold goodch; intros x; destruct x; simpl; split; intros; first [assumption | reflexivity].
+Ltac solve_goodtf := unfold goodtf; intros x; destruct x; simpl; repeat split; intros; first [assumption | reflexivity].
 
 Section Frame.
   Variable R : heap -> heap -> Prop.
   Hypothesis R_refl : forall H, R H H.
   Hypothesis R_trans : forall a b c, R a b -> R b c -> R a c.
   Hypothesis R_ucmd : forall c f H, good f -> R H (ucmd c f H).
-  Hypothesis R_uch : forall c f H, R H (uch c f H).
-  Hypothesis R_utf : forall u f H, R H (utf u f H).
+  Hypothesis R_uch : forall c f H, goodch f -> R H (uch c f H).
+  Hypothesis R_utf : forall u f H, goodtf f -> R H (utf u f H).
   Hypothesis R_note : forall n H, R H (note n H).
   Hypothesis R_set_woken : forall g H, R H (set_woken g H).
   Hypothesis R_push_xready : forall q H, R H (push_xready q H).
@@ -95,26 +108,26 @@ Section Frame.
   Lemma R_wake_cell ch H : R H (wake_cell ch H).
   Proof.
     unfold wake_cell. destruct (ch_wk (gch ch H)); [|apply R_refl].
-    eapply R_trans; [apply R_uch | apply R_wake].
+    eapply R_trans; [|apply R_wake]; apply R_uch; solve_goodch.
   Qed.
   Lemma R_chan_send ch v H : R H (snd (chan_send ch v H)).
   Proof.
     unfold chan_send. destruct (ch_rx (gch ch H)); simpl; [|apply R_note].
-    eapply R_trans; [apply R_uch | apply R_wake_cell].
+    eapply R_trans; [|apply R_wake_cell]; apply R_uch; solve_goodch.
   Qed.
   Lemma R_chan_drop_tx ch H : R H (chan_drop_tx ch H).
   Proof.
     unfold chan_drop_tx. destruct (ch_tx (gch ch H)); [|apply R_refl].
-    eapply R_trans; [apply R_uch | apply R_wake_cell].
+    eapply R_trans; [|apply R_wake_cell]; apply R_uch; solve_goodch.
   Qed.
   Lemma R_chan_drop_rx ch H : R H (chan_drop_rx ch H).
-  Proof. unfold chan_drop_rx. apply R_uch. Qed.
+  Proof. unfold chan_drop_rx. apply R_uch; solve_goodch. Qed.
   Lemma R_chan_reg ch w H : R H (chan_reg ch w H).
-  Proof. unfold chan_reg. apply R_uch. Qed.
+  Proof. unfold chan_reg. apply R_uch; solve_goodch. Qed.
   Lemma R_drop_req e H : R H (drop_req e H).
   Proof. unfold drop_req. destruct (e_res e); [apply R_refl | apply R_chan_drop_tx | apply R_chan_drop_tx | apply R_refl]. Qed.
   Lemma R_kill_flag u H : R H (kill_flag u H).
-  Proof. unfold kill_flag. apply R_utf. Qed.
+  Proof. unfold kill_flag. apply R_utf; solve_goodtf. Qed.
   Lemma R_push_ev c e H : R H (push_ev c e H).
   Proof. unfold push_ev. apply R_ucmd; solve_good. Qed.
   Lemma R_push_eff c e H : R H (push_eff c e H).
@@ -158,7 +171,7 @@ Section Frame.
       + eapply R_trans; [exact R1 | apply R_chan_reg].
       + eapply R_trans; [exact R1 | apply R_chan_drop_rx].
     - destruct (tf_fin (gtf u H)); [intros E; inversion E; subst; apply R_refl|].
-      destruct (tf_alive (gtf u H)); intros E; inversion E; subst; [apply R_utf | apply R_note].
+      destruct (tf_alive (gtf u H)); intros E; inversion E; subst; [apply R_utf; solve_goodtf | apply R_note].
   Qed.
   Lemma R_sub_drop q H : R H (sub_drop q H).
   Proof. unfold sub_drop. destruct q as [sent dead tg v ch|m|sent tg v ch|u]; [|apply R_refl|apply R_chan_drop_rx|apply R_refl]. destruct dead; [apply R_refl | apply R_chan_drop_rx]. Qed.
@@ -192,14 +205,14 @@ Section Frame.
     unfold finish_task. cbv zeta.
     eapply R_trans; [|apply R_kill_flag]. eapply R_trans; [|apply R_drop_fs].
     match goal with |- R _ (fold_left ?g ?l ?H1) => eapply R_trans; [|apply (R_fold g)] end.
-    - apply (R_trans _ (ucmd cid (slab_remove s) H)); [apply R_ucmd; solve_good | apply R_utf].
+    - apply (R_trans _ (ucmd cid (slab_remove s) H)); [apply R_ucmd; solve_good | apply R_utf; solve_goodtf].
     - intros wk Hh. apply R_wake.
   Qed.
 
   (* solve R H (op1 (op2 ... H)) for explicit compositions of primitives *)
   Ltac prim :=
     first [ apply R_push_ev | apply R_push_eff | apply R_note | apply R_chan_reg
-          | apply R_chan_drop_rx | apply R_chan_drop_tx | apply R_uch | apply R_utf | apply R_wake
+          | apply R_chan_drop_rx | apply R_chan_drop_tx | (apply R_uch; solve_goodch) | (apply R_utf; solve_goodtf) | apply R_wake
           | apply R_drop_cmd | apply R_drop_fs | apply R_sub_drop | apply R_kill_flag | apply R_set_woken | apply R_add_gen
           | (apply R_ucmd; solve_good) ].
   (* R H (op1 (op2 (... H))): peel one primitive at a time from the outside *)
